@@ -38,6 +38,7 @@ type Config struct {
 	LazyK      int               `json:"lazy_k"`
 	MaxSwitches int              `json:"max_switches"`
 	FPContract bool              `json:"fp_contract"`
+	ConcreteClock bool           `json:"concrete_clock"`
 	SortMapIter bool             `json:"sort_map_iter"`
 	TimeoutMS  int               `json:"solver_timeout_ms"`
 	SecondTimeoutS int           `json:"second_timeout_s"`
@@ -256,7 +257,7 @@ func (w *World) setIntercepts(c *Config) error {
 	c.icpt = map[string]*Intercept{}
 	for callee, spec := range c.Intercepts {
 		switch {
-		case spec == "noop" || spec == "havoc":
+		case spec == "noop" || spec == "havoc" || spec == "nativeobj":
 			c.icpt[callee] = &Intercept{Kind: spec}
 		case strings.HasPrefix(spec, "model:"):
 			ref := strings.TrimPrefix(spec, "model:")
